@@ -245,3 +245,97 @@ func HarnessC05GetBlocksAdversarial() { zzC05GetBlocks(false) }
 // HarnessC05GetBlocksHonestSched: the same harness under schedule exploration (one pre-emption; select picks any
 // ready case), small bounds.
 func HarnessC05GetBlocksHonestSched() { zzC05GetBlocks(true) }
+
+// ---------------------------------------------------------------------------------------------------------
+// Two block services, one context. Services A and B have their own blockstore and their own (contract-abiding,
+// recording) exchange over the same CIDs. The context carries a session embedded for A (ContextWithSession or
+// EmbedSessionInContext); it is then used on A or on B. The C05 clauses must hold for the service that was called:
+// a CID local to it never reaches any exchange, every block handed out is in ITS store, only requested CIDs
+// come back.
+// ---------------------------------------------------------------------------------------------------------
+
+func zzC05Svc2(w *zzWorld, sessionEx bool, maxDeliver int) BlockService {
+	f := zzFetch{w: w, who: "ex", deliver: zzScripted(w, true, maxDeliver)}
+	var ex exchange.Interface = &zzEx{zzFetch: f}
+	if sessionEx {
+		ex = &zzSesEx{zzEx: zzEx{zzFetch: f}}
+	}
+	return New(&zzBS{w: w}, ex)
+}
+
+func zzFetchedSlots(ws []*zzWorld, n int) []bool {
+	f := make([]bool, n+2)
+	for _, w := range ws {
+		for _, o := range w.log {
+			if o.who != "bs" && (o.op == "getblock" || o.op == "getblocks") && o.slot >= 0 {
+				f[o.slot] = true
+			}
+		}
+	}
+	return f
+}
+
+func HarnessC05TwoServices() {
+	n := verifrt.NondetRange("n", 1, verifrt.Param("N", 2))
+	wA, wB := zzC05World(n), zzC05World(n)
+	sesEx := verifrt.NondetBool("sessionExchange")
+	d := verifrt.Param("D", 2)
+	svcA, svcB := zzC05Svc2(wA, sesEx, d), zzC05Svc2(wB, sesEx, d)
+
+	ctx := context.Background()
+	if verifrt.NondetBool("embedExplicit") {
+		ctx = EmbedSessionInContext(ctx, NewSession(ctx, svcA))
+	} else {
+		ctx = ContextWithSession(ctx, svcA)
+	}
+	// the service that is called, its world, and both worlds for the exchange logs
+	svc, w := svcA, wA
+	if verifrt.NondetBool("callB") {
+		svc, w = svcB, wB
+	}
+	ws := []*zzWorld{wA, wB}
+	wasLocal := make([]bool, len(w.pool))
+	for i, s := range w.pool {
+		wasLocal[i] = s.local
+	}
+
+	if verifrt.NondetBool("single") {
+		want := w.pool[0]
+		blk, err := svc.GetBlock(ctx, want.c)
+		verifrt.Observe("ok", err == nil)
+		fetched := zzFetchedSlots(ws, n)
+		if wasLocal[0] {
+			verifrt.Assert("C05.two-services-local-never-fetched", !fetched[0])
+			verifrt.Assert("C05.two-services-local-succeeds", err == nil)
+		}
+		if err == nil {
+			verifrt.Assert("C05.two-services-returns-requested-cid", blk.Cid().Equals(want.c))
+			verifrt.Assert("C05.two-services-block-in-called-store", w.pool[0].local)
+		}
+		verifrt.Reach("end")
+		return
+	}
+
+	ks := make([]cid.Cid, n)
+	for i := range ks {
+		ks[i] = w.pool[i].c
+	}
+	got := make([]int, len(w.pool))
+	for b := range svc.GetBlocks(ctx, ks) {
+		i := w.find(b.Cid())
+		verifrt.Assert("C05.two-services-emits-only-requested", i >= 0 && i < n)
+		if i >= 0 {
+			got[i]++
+			verifrt.Assert("C05.two-services-block-in-called-store", w.pool[i].local)
+		}
+	}
+	fetched := zzFetchedSlots(ws, n)
+	for i := 0; i < n; i++ {
+		verifrt.Observe("got", got[i])
+		if wasLocal[i] {
+			verifrt.Assert("C05.two-services-local-never-fetched", !fetched[i])
+			verifrt.Assert("C05.two-services-local-block-emitted", got[i] >= 1)
+		}
+	}
+	verifrt.Reach("end")
+}
